@@ -53,3 +53,66 @@ def rc_latency_oracle(ctx, cases, n_expr, how):
     c12._H = None  # pylint: disable=protected-access
     evalimpl._configured = False  # pylint: disable=protected-access
     return n
+
+
+def fc_latency_oracle(ctx, collected, how, n_max=40):
+    """collected: [(format-constraint expression string, [fc keys])]; format_constraint_evaluation with user-supplied asynchronous evaluate_<key> methods
+    that suspend a prescribed number of times per key occurrence. Whatever the latencies, the verdict is the Boolean value of the expression under the
+    truth assignment the evaluators implement (and the one obtained when nothing suspends)."""
+    from ahbicht.expressions.condition_expression_parser import parse_condition_expression_to_tree
+
+    from vlib import evalimpl
+    from vlib.props import c12
+
+    n, done = 0, set()
+    for expr, keys in collected:
+        keys = sorted(set(keys))
+        if len(done) >= n_max:
+            break
+        if len(keys) < 2 or len(keys) > 4 or expr in done or any(k not in c12.FC_KEYS for k in keys):
+            continue
+        done.add(expr)
+        tree = exprs.from_lark(parse_condition_expression_to_tree(expr))
+        for bits in range(1, 2 ** len(keys) - 1):   # assignments that are not constant
+            beta = {k: bool(bits >> i & 1) for i, k in enumerate(keys)}
+            expected = {k: ("abc" if beta[k] else "something else") for k in keys}
+            sc = c12.sc_fc("latency-fc", [("abc", expr)], expected)
+            m = len(sc.slots)
+            want = exprs.beval(tree, beta)
+            profiles = [[0] * m, [1] * m] + [[3 if j == i else 0 for j in range(m)] for i in range(m)] + [[(m - j) % 4 for j in range(m)], [j % 4 for j in range(m)]]
+            for vec in profiles:
+                out = sc.run(vec)[0]
+                n += 1
+                if ("|LEAK" in out) or (f"format_constraints_fulfilled={want}" not in out.split("|LEAK")[0]):
+                    ctx.fail(f"latency-fc|{expr}|{sorted(beta.items())}|{vec}", {"kind": "latency-fc", "expression": expr, "fc": beta,
+                                                                                  "suspensions_per_awaitable": dict(zip([str(s) for s in sc.slots], vec))},
+                             f"format_constraint_evaluation gives {want} (the Boolean value under this assignment), whatever the latencies", out[:300], how)
+                    break
+    c12._H = None  # pylint: disable=protected-access
+    evalimpl._configured = False  # pylint: disable=protected-access
+    return n
+
+
+def pkg_latency_oracle(ctx, how):
+    """package expansion with a resolver that really suspends (different latencies per package occurrence): every occurrence is replaced by ITS package"""
+    from vlib import evalimpl
+    from vlib.props import c12
+
+    n = 0
+    for name, items, prefix in (("lat-pkg1", ["1P", "8", "2P"], ""), ("lat-pkg2", ["1P", "2P", "3P"], "Muss "), ("lat-pkg3", ["9", "3P", "1P", "3P"], ""),
+                                ("lat-pkg4", ["3P", "1P", "8", "2P"], ""), ("lat-pkg5", ["1P", "2P", "1P", "3P", "2P"], "")):
+        sc = c12.sc_pkg(name, items, prefix=prefix)
+        m = len(sc.slots)
+        base = sc.run([0] * m)[0]
+        profiles = [[1] * m] + [[3 if j == i else 0 for j in range(m)] for i in range(m)] + [[(m - j) % 4 for j in range(m)], [j % 4 for j in range(m)]]
+        for vec in [[0] * m] + profiles:
+            got = sc.run(vec)[0]
+            n += 1
+            if sc.problem is not None or got != base:
+                ctx.fail(f"latency-pkg|{sc.params['expression']}|{vec}", {"kind": "latency-pkg", "expression": sc.params["expression"], "packages": sc.params["packages"],
+                                                                         "suspensions_per_awaitable": dict(zip([str(s) for s in sc.slots], vec))},
+                         f"every package occurrence replaced by its own package: {sc.problem[0] if sc.problem else base[:200]}", f"{sc.problem[1] if sc.problem else got[:200]}", how)
+                break
+    c12._H = None  # pylint: disable=protected-access
+    evalimpl._configured = False  # pylint: disable=protected-access
+    return n
